@@ -52,6 +52,25 @@ type apiCall struct {
 	// replies of the right kind / of a wrong kind for the request (encoded messages)
 	Good  func() []protocol.Message
 	Wrong func() []protocol.Message
+	// well-formed reply sequence of the right kinds but with UNEXPECTED CONTENT (wrong block / point /
+	// payload), sent in place of the last good reply; nil = class not applicable
+	Unexpected func() []protocol.Message
+	// the mini-protocol client's own Stop(), called AFTER Connection.Close (nil = none)
+	Stop func(c *ouroboros.Connection) error
+}
+
+// a real (decodable) Conway block from the repository's test data, wrapped as block-fetch sends it
+func fixtureBlock() []byte {
+	repo := os.Getenv("VERIF_REPO")
+	if repo == "" {
+		repo = "/repo"
+	}
+	b, err := os.ReadFile(repo + "/internal/testdata/conway_block.hex")
+	if err != nil {
+		panic(err)
+	}
+	raw := vh.UnHex(string(b))
+	return append([]byte{0x82, 0x07}, raw...)
 }
 
 func hash32() []byte {
@@ -77,7 +96,8 @@ func calls() []apiCall {
 			},
 			Wrong: func() []protocol.Message {
 				return []protocol.Message{localstatequery.NewMsgAcquired(), localstatequery.NewMsgAcquired()}
-			}},
+			},
+			Unexpected: func() []protocol.Message { return []protocol.Message{localstatequery.NewMsgResult([]byte{0x82, 0x01, 0x02})} }},
 		{Name: "localtxmonitor.Acquire", Proto: localtxmonitor.ProtocolId, Func: "(*Client).acquire",
 			Do:    func(c *ouroboros.Connection) error { return c.LocalTxMonitor().Client.Acquire() },
 			Good:  func() []protocol.Message { return []protocol.Message{localtxmonitor.NewMsgAcquired(5)} },
@@ -97,7 +117,9 @@ func calls() []apiCall {
 			},
 			Wrong: func() []protocol.Message {
 				return []protocol.Message{localtxmonitor.NewMsgAcquired(5), localtxmonitor.NewMsgReplyGetSizes(1, 2, 3)}
-			}},
+			},
+			Unexpected: func() []protocol.Message { return []protocol.Message{localtxmonitor.NewMsgReplyNextTx(99, []byte{0xff})} },
+			Stop:       func(c *ouroboros.Connection) error { return c.LocalTxMonitor().Client.Stop() }},
 		{Name: "localtxmonitor.GetSizes", Proto: localtxmonitor.ProtocolId, Func: "(*Client).GetSizes",
 			Do: func(c *ouroboros.Connection) error { _, _, _, err := c.LocalTxMonitor().Client.GetSizes(); return err },
 			Good: func() []protocol.Message {
@@ -109,7 +131,9 @@ func calls() []apiCall {
 		{Name: "localtxsubmission.SubmitTx", Proto: localtxsubmission.ProtocolId, Func: "(*Client).SubmitTx",
 			Do:    func(c *ouroboros.Connection) error { return c.LocalTxSubmission().Client.SubmitTx(6, []byte{0x80}) },
 			Good:  func() []protocol.Message { return []protocol.Message{localtxsubmission.NewMsgAcceptTx()} },
-			Wrong: func() []protocol.Message { return []protocol.Message{localtxsubmission.NewMsgDone()} }},
+			Wrong: func() []protocol.Message { return []protocol.Message{localtxsubmission.NewMsgDone()} },
+			Unexpected: func() []protocol.Message { return []protocol.Message{localtxsubmission.NewMsgRejectTx([]byte{0x82, 0x01, 0x02})} },
+			Stop:       func(c *ouroboros.Connection) error { return c.LocalTxSubmission().Client.Stop() }},
 		{Name: "chainsync-ntc.GetCurrentTip", Proto: chainsync.ProtocolIdNtC, Func: "(*Client).GetCurrentTip",
 			Do:    func(c *ouroboros.Connection) error { _, err := c.ChainSync().Client.GetCurrentTip(); return err },
 			Good:  func() []protocol.Message { return []protocol.Message{chainsync.NewMsgIntersectNotFound(tip)} },
@@ -121,15 +145,27 @@ func calls() []apiCall {
 		{Name: "chainsync-ntn.Sync", NtN: true, Proto: chainsync.ProtocolIdNtN, Func: "(*Client).Sync",
 			Do:    func(c *ouroboros.Connection) error { return c.ChainSync().Client.Sync([]pcommon.Point{pt}) },
 			Good:  func() []protocol.Message { return []protocol.Message{chainsync.NewMsgIntersectFound(pt, tip)} },
-			Wrong: func() []protocol.Message { return []protocol.Message{chainsync.NewMsgRollBackward(pt, tip)} }},
+			Wrong: func() []protocol.Message { return []protocol.Message{chainsync.NewMsgRollBackward(pt, tip)} },
+			Unexpected: func() []protocol.Message {
+				return []protocol.Message{chainsync.NewMsgIntersectFound(pcommon.NewPoint(99, hash32()), tip)}
+			},
+			Stop: func(c *ouroboros.Connection) error { return c.ChainSync().Client.Stop() }},
 		{Name: "blockfetch.GetBlock", NtN: true, Proto: blockfetch.ProtocolId, Func: "(*Client).GetBlock",
 			Do:    func(c *ouroboros.Connection) error { _, err := c.BlockFetch().Client.GetBlock(pt); return err },
 			Good:  func() []protocol.Message { return []protocol.Message{blockfetch.NewMsgNoBlocks()} },
-			Wrong: func() []protocol.Message { return []protocol.Message{blockfetch.NewMsgBatchDone()} }},
+			Wrong: func() []protocol.Message { return []protocol.Message{blockfetch.NewMsgBatchDone()} },
+			Unexpected: func() []protocol.Message {
+				return []protocol.Message{blockfetch.NewMsgStartBatch(), blockfetch.NewMsgBlock(fixtureBlock()), blockfetch.NewMsgBatchDone()}
+			},
+			Stop: func(c *ouroboros.Connection) error { return c.BlockFetch().Client.Stop() }},
 		{Name: "blockfetch.GetBlockRange", NtN: true, Proto: blockfetch.ProtocolId, Func: "(*Client).GetBlockRange",
 			Do:    func(c *ouroboros.Connection) error { return c.BlockFetch().Client.GetBlockRange(pt, pt) },
 			Good:  func() []protocol.Message { return []protocol.Message{blockfetch.NewMsgNoBlocks()} },
-			Wrong: func() []protocol.Message { return []protocol.Message{blockfetch.NewMsgBlock([]byte{0x82, 0x01, 0x02})} }},
+			Wrong: func() []protocol.Message { return []protocol.Message{blockfetch.NewMsgBlock([]byte{0x82, 0x01, 0x02})} },
+			Unexpected: func() []protocol.Message {
+				return []protocol.Message{blockfetch.NewMsgStartBatch(), blockfetch.NewMsgBlock(fixtureBlock()), blockfetch.NewMsgBatchDone()}
+			},
+			Stop: func(c *ouroboros.Connection) error { return c.BlockFetch().Client.Stop() }},
 		{Name: "peersharing.GetPeers", NtN: true, Proto: peersharing.ProtocolId, Func: "(*Client).GetPeers",
 			Do:    func(c *ouroboros.Connection) error { _, err := c.PeerSharing().Client.GetPeers(3); return err },
 			Good:  func() []protocol.Message { return []protocol.Message{peersharing.NewMsgSharePeers([]peersharing.PeerAddress{})} },
@@ -137,7 +173,7 @@ func calls() []apiCall {
 	}
 }
 
-var scripts = []string{"silence-then-close", "disconnect-after-request", "malformed-reply", "wrong-kind-reply", "surplus-reply", "close-during-call", "disconnect-before-request"}
+var scripts = []string{"unexpected-content-then-close", "silence-then-close", "disconnect-after-request", "malformed-reply", "wrong-kind-reply", "surplus-reply", "close-during-call", "disconnect-before-request"}
 
 // goroutines that carry a gouroboros frame (goleak-style filter)
 func ourGoroutines() []string {
@@ -205,6 +241,8 @@ type scenResult struct {
 	Leaked     []string
 	BlockedAt  string
 	SetupError string
+	StopRet    bool
+	StopTried  bool
 }
 
 var leakMu sync.Mutex // leak check needs a quiet process: scenarios run one at a time
@@ -263,6 +301,10 @@ func runScenario(a apiCall, script string) (r scenResult) {
 		case "surplus-reply":
 			p.SendMsgs(a.Proto, false, good[i])
 			p.SendMsgs(a.Proto, false, good[i])
+		case "unexpected-content-then-close":
+			for _, m := range a.Unexpected() {
+				p.SendMsgs(a.Proto, false, m)
+			}
 		}
 	}
 	errChan := make(chan error, 10)
@@ -308,7 +350,15 @@ func runScenario(a apiCall, script string) (r scenResult) {
 			r.BlockedAt = topFrames(g)
 		}
 	}
+	if script == "unexpected-content-then-close" {
+		time.Sleep(150 * time.Millisecond) // let the rest of the conversation arrive
+	}
 	r.CloseRet = peer.WaitOrHang(5*time.Second, func() { conn.Close() })
+	if script == "unexpected-content-then-close" && a.Stop != nil {
+		// the mini-protocol client's Stop must return AFTER the connection is closed
+		r.StopTried = true
+		r.StopRet = peer.WaitOrHang(5*time.Second, func() { a.Stop(conn) })
+	}
 	p.Close()
 	// ErrorChan must get closed
 	dl := time.After(5 * time.Second)
@@ -725,6 +775,9 @@ func run(c *vh.Ctx) error {
 		if !ok {
 			continue
 		}
+		if t.Script == "unexpected-content-then-close" && a.Unexpected == nil {
+			continue
+		}
 		r := runScenario(a, t.Script)
 		c.Res.Count(canon, true, t.Script)
 		if r.SetupError != "" {
@@ -734,8 +787,26 @@ func run(c *vh.Ctx) error {
 		if len(c.Res.Samples) < 6 {
 			c.Res.Sample(map[string]any{"scenario": canon, "returned": r.Returned, "error": r.CallErr, "close_returned": r.CloseRet, "errorchan_closed": r.ErrClosed, "leaked": len(r.Leaked)})
 		}
-		addCase(protoFile[strings.SplitN(t.Call, ".", 2)[0]], a.Func, !r.Returned, t)
+		pf := protoFile[strings.SplitN(t.Call, ".", 2)[0]]
+		addCase(pf, a.Func, !r.Returned, t)
 		c.Res.TracesValidated++
+		// a goroutine parked inside a message handler of this protocol: name the handler
+		parked := ""
+		for _, l := range r.Leaked {
+			first := strings.SplitN(l, " < ", 2)[0]
+			if i := strings.Index(first, ".(*Client).handle"); i >= 0 {
+				parked = first[i+1:]
+			}
+		}
+		if r.Returned && (parked != "" || (r.StopTried && !r.StopRet)) {
+			if parked == "" {
+				parked = "?"
+			}
+			addCase(pf, parked, true, t)
+			c.Res.Violate("monitor", "c15:handler-stranded:"+parked+":"+t.Call+":"+t.Script,
+				fmt.Sprintf("%s returned (%s), but after Connection.Close the message handler %s is still blocked: client Stop() returned=%v (tried=%v), %d goroutines survive: %s",
+					t.Call, r.CallErr, parked, r.StopRet, r.StopTried, len(r.Leaked), strings.Join(r.Leaked, " || ")), t)
+		}
 		if !r.Returned {
 			c.Res.Violate("monitor", "c15:hang:"+a.Func+":"+t.Call+":"+t.Script,
 				fmt.Sprintf("%s has not returned %v after the peer script %q (and Close); blocked at: %s", t.Call, callBound, t.Script, r.BlockedAt), t)
